@@ -108,13 +108,18 @@ def process_graphql_query(
         return result
 
     if isinstance(document, str):
+        syntax_error = None
         instrumentation.on_parsing_start()
         try:
             ast = parse(document)
         except GraphQLSyntaxError as err:
-            return _abort(errors=[err])
+            syntax_error = err
         finally:
             instrumentation.on_parsing_end()
+
+        # Abort after the parsing stage has been closed so hooks nest properly.
+        if syntax_error is not None:
+            return _abort(errors=[syntax_error])
     else:
         ast = document
 
